@@ -292,8 +292,10 @@ theorem evaluate_piece_squares.evaluate_eq {sv : StateVariation} {v : Variation}
   rw [evalSquares_sum, ← Piece.ALL_eq]
   refine foldlM_adds _ _ _ _ _ ?_ h
   intro p _ a r' hb
-  rw [hr.state, hr.egw, Board.piece_occupancy_stateOf, iter_ones_collect_65] at hb
-  simp only [bind, Option.bind] at hb
+  rw [hr.state, hr.egw, Board.piece_occupancy_stateOf] at hb
+  simp only [Option.bind_eq_bind, Option.bind_some] at hb
+  rw [iter_ones_collect_65] at hb
+  simp only [Option.bind_some] at hb
   have := foldlM_adds _ (fun (x : UInt32) => pieceSquare p x.toNat c v.egw) _ a r' ?_ hb
   · rw [this, List.map_map]
     congr 2
@@ -306,13 +308,127 @@ theorem evaluate_piece_squares.evaluate_eq {sv : StateVariation} {v : Variation}
     have hn64 : n < 64 := ((mem_bitsOf _ n).1 hn).1
     have hx32 : (Nat.toUInt32 n).toNat = n := by
       simp [Nat.toUInt32, UInt32.toNat_ofNat', Nat.mod_eq_of_lt (show n < 2 ^ 32 by omega)]
-    obtain ⟨y, hy, h1⟩ := Option.bind_eq_some_iff.1 h1
-    obtain ⟨z, hz, h1⟩ := Option.bind_eq_some_iff.1 h1
-    cases h1
+    obtain ⟨y, hy, hz⟩ := Option.bind_eq_some_iff.1 h1
     have hsq : (Square.from_u32 (Nat.toUInt32 n)).toNat = n := by
       rw [Square.from_u32_toNat _ (by omega), hx32]
     have := evaluate_piece_squares.evaluate_piece_square_eq p _ c v.egw (by rw [hsq]; exact hn64) y hy
     rw [Evaluation.add_assign_some hz, this, hsq, hx32]
+
+/-! ## `evaluate_bad_pawns::evaluate` -/
+
+theorem fm_index : ∀ f : Fin 8,
+    ArrayMap.index common.FILE_MASKS (Index.from_File f.val.toUInt8) = some (fileMask f.val) := by decide
+
+theorem file_left_eq : ∀ f : Fin 8,
+    File.left f.val.toUInt8 = some (if f.val = 0 then Option.none else some (f.val - 1).toUInt8) := by decide
+
+theorem file_right_eq : ∀ f : Fin 8,
+    File.right f.val.toUInt8 = some (if f.val = 7 then Option.none else some (f.val + 1).toUInt8) := by decide
+
+/-- the model's contribution of one file -/
+def badPawnsFile (pawns : UInt64) (f : Nat) : Int :=
+  (if popcount (pawns &&& fileMask f) > doubledPawnMin then - Ev.mulF Ev.onePawn doubledPawnPenalty else 0) +
+  (if bbNone (pawns &&& ((if f = 0 then 0 else fileMask (f - 1)) ||| (if f = 7 then 0 else fileMask (f + 1))))
+    then - Ev.mulF Ev.onePawn isolatedPawnPenalty else 0)
+
+theorem evalBadPawns_sum (v : Variation) (c : Color) :
+    evalBadPawns v c = ((List.range 8).map (badPawnsFile (v.s.pieces.get c .pawn))).sum := by
+  unfold evalBadPawns
+  simp only
+  rw [foldl_adds _ (badPawnsFile (v.s.pieces.get c .pawn)) _ _ ?_]
+  · simp
+  · intro f _ acc
+    unfold badPawnsFile
+    generalize ((if f = 0 then 0 else fileMask (f - 1)) ||| (if f = 7 then 0 else fileMask (f + 1)) : UInt64) = M
+    by_cases h1 : popcount (v.s.pieces.get c .pawn &&& fileMask f) > doubledPawnMin <;>
+      by_cases h2 : bbNone (v.s.pieces.get c .pawn &&& M) = true <;> simp only [h1, h2, if_true, if_false] <;>
+      first | omega | (simp; omega) | simp
+
+theorem count_ones_gt_one (b : UInt64) : decide (BitBoard.count_ones b > (1 : UInt32)) = decide (popcount b > doubledPawnMin) := by
+  have h := popcount_le b
+  rw [BitBoard.count_ones_eq]
+  apply decide_eq_decide.2
+  show (1 : UInt32) < (popcount b).toUInt32 ↔ popcount b > 1
+  rw [UInt32.lt_iff_toNat_lt]
+  simp [Nat.toUInt32, UInt32.toNat_ofNat', Nat.mod_eq_of_lt (show popcount b < 2 ^ 32 by omega)]
+
+theorem count_ones_gt_one' (a b : UInt64) :
+    decide (BitBoard.count_ones (BitBoard.bitand a b) > (1 : UInt32)) = decide (popcount (a &&& b) > doubledPawnMin) :=
+  count_ones_gt_one (a &&& b)
+
+theorem bp_tail (P M : UInt64) (e1 r' : Int32)
+    (hb : (if bbNone (P &&& M) = true then
+        Evaluation.sub_assign_Evaluation e1 (Evaluation.mul_f32 Evaluation.ONE_PAWN (f32.ofBits 1056964608)) else some e1) = some r') :
+    r'.toInt = e1.toInt + (if bbNone (P &&& M) then - Ev.mulF Ev.onePawn isolatedPawnPenalty else 0) := by
+  by_cases hc : bbNone (P &&& M) = true
+  · rw [if_pos hc] at hb
+    rw [if_pos hc, Evaluation.sub_assign_some hb, Evaluation.mul_f32_eq, Evaluation.consts_eq.1, f32_literals.2.1]; omega
+  · rw [if_neg hc] at hb
+    cases hb
+    rw [if_neg hc]; omega
+
+/-- `evaluate_bad_pawns::evaluate` adds the model's `evalBadPawns` -/
+theorem evaluate_bad_pawns.evaluate_eq {sv : StateVariation} {v : Variation} (hr : SVRep sv v) (c : Color)
+    (e0 r : Int32) (b : Bool) (h : evaluate_bad_pawns.evaluate sv c e0 b = some r) :
+    r.toInt = e0.toInt + evalBadPawns v c := by
+  unfold evaluate_bad_pawns.evaluate at h
+  rw [hr.state, Board.piece_occupancy_stateOf] at h
+  simp only [Option.bind_eq_bind, Option.bind_some, bind_pure] at h
+  rw [evalBadPawns_sum]
+  generalize v.s.pieces.get c .pawn = P at h ⊢
+  have hmap : ((List.range 8).map (badPawnsFile P)) = (File.ALL.map fun (x : UInt8) => badPawnsFile P x.toNat) := by
+    rw [File.ALL_eq, List.map_map]
+    apply List.map_congr_left
+    intro k hk
+    have hk8 : k < 8 := List.mem_range.1 hk
+    simp [Function.comp, toUInt8_toNat_lt k (by omega)]
+  rw [hmap]
+  refine foldlM_adds _ _ _ _ _ ?_ h
+  intro x hx a r' hb
+  rw [File.ALL_eq] at hx
+  obtain ⟨k, hk, rfl⟩ := List.mem_map.1 hx
+  have hk8 : k < 8 := List.mem_range.1 hk
+  rw [toUInt8_toNat_lt k (by omega)]
+  have H1 := fm_index ⟨k, hk8⟩
+  have HL := file_left_eq ⟨k, hk8⟩
+  have HR := file_right_eq ⟨k, hk8⟩
+  simp only at H1 HL HR
+  simp only [H1, Option.bind_eq_bind, Option.bind_some, count_ones_gt_one'] at hb
+  simp only [HL, HR, Option.bind_eq_bind, Option.bind_some, BitBoard.bitand_eq, BitBoard.bitor_eq, BitBoard.ZERO_eq,
+    BitBoard.none_eq, Option.pure_def] at hb
+  obtain ⟨e1, he1, hb⟩ := Option.bind_eq_some_iff.1 hb
+  -- the doubled-pawn part
+  have hd : e1.toInt = a.toInt +
+      (if popcount (P &&& fileMask k) > doubledPawnMin then - Ev.mulF Ev.onePawn doubledPawnPenalty else 0) := by
+    by_cases hc : popcount (P &&& fileMask k) > doubledPawnMin
+    · rw [if_pos hc]
+      rw [decide_eq_true hc, if_pos rfl] at he1
+      rw [Evaluation.sub_assign_some he1, Evaluation.mul_f32_eq, Evaluation.consts_eq.1, f32_literals.1]; omega
+    · rw [if_neg hc]
+      rw [decide_eq_false hc, if_neg (by simp)] at he1
+      cases he1; omega
+  have L := fun (h0 : ¬ k = 0) => fm_index ⟨k - 1, by omega⟩
+  have R := fun (h7 : ¬ k = 7) => fm_index ⟨k + 1, by omega⟩
+  simp only at L R
+  unfold badPawnsFile
+  by_cases h0 : k = 0 <;> by_cases h7 : k = 7
+  · omega
+  · subst h0
+    have R1 : ArrayMap.index common.FILE_MASKS (Index.from_File (0 + 1).toUInt8) = some (fileMask (0 + 1)) :=
+      fm_index ⟨1, by omega⟩
+    simp only [↓reduceIte, h7, R1, Option.bind_some, Option.getD_some, Option.getD_none] at hb
+    have := bp_tail _ _ _ _ hb
+    rw [this, hd]; simp only [↓reduceIte, h7, UInt64.zero_or, UInt64.or_zero]; omega
+  · subst h7
+    have L1 : ArrayMap.index common.FILE_MASKS (Index.from_File (7 - 1).toUInt8) = some (fileMask (7 - 1)) :=
+      fm_index ⟨6, by omega⟩
+    simp only [↓reduceIte, h0, L1, Option.bind_some, Option.getD_some, Option.getD_none] at hb
+    have := bp_tail _ _ _ _ hb
+    rw [this, hd]; simp only [↓reduceIte, h0, UInt64.zero_or, UInt64.or_zero]; omega
+  · simp only [h0, h7, if_true, if_false, L h0, R h7, Option.bind_some, Option.getD_some, Option.getD_none] at hb
+    have := bp_tail _ _ _ _ hb
+    simp only [h0, h7, if_true, if_false]
+    rw [this, hd]; simp only [UInt64.zero_or, UInt64.or_zero]; omega
 
 end GenFns
 end Wee
